@@ -14,6 +14,7 @@ class FindOracle:
         self.node = node
         self.filters = [tuple(f) for f in filters]
         self.watched = []  # filter tuples in registration order
+        self.watched_at = {}
         t = dict(INITIAL_DELAY_MIN=0.0, INITIAL_DELAY_MAX=3, REPETITIONS_MAX=3, REPETITIONS_BASE_DELAY=0.01, FIND_TTL=3)
         t.update(timings)
         self.t = t
@@ -69,7 +70,11 @@ class FindOracle:
     def unfound_sets(self, T, retrospective=False):
         must, may = [], []
         for f in self.watched:
+            if self.watched_at[f] > T + RES:
+                continue  # not yet watched at that instant (retrospective evaluation)
             s = self.found(f, T, retrospective)
+            if self.watched_at[f] >= T - RES and s == "no":
+                s = "maybe"  # registered in the very instant of the round
             if s == "no":
                 must.append(f)
             elif s == "maybe":
@@ -94,6 +99,9 @@ class FindOracle:
             flt = self.filters[a[0]]
             if flt not in self.watched:
                 self.watched.append(flt)
+                self.watched_at[flt] = T
+                if self.running and self.alive != "no":
+                    self.probe("watch_while_rounds_running")
         elif f in ("start", "disc_start"):
             if not self.running:
                 self._begin(T)
@@ -215,7 +223,7 @@ class FindOracle:
                 else:
                     # window: only certain if something stayed unfound during the whole window
                     hi = fire_limit(self.busy, hi)
-                    stable = [f for f in self.watched if self.found(f, lo, True) == "no" and self.found(f, hi, True) == "no" and not self._arrival_between(f, lo, hi)]
+                    stable = [f for f in self.watched if self.watched_at[f] < lo - RES and self.found(f, lo, True) == "no" and self.found(f, hi, True) == "no" and not self._arrival_between(f, lo, hi)]
                     if stable and self.alive == "yes":
                         self.viol("FIND-SET", f"no round in [{lo:.6f}, {hi:.6f}] although {stable[0]} is watched and not found", "round-missing")
                     self.alive = "no"
